@@ -47,3 +47,83 @@ Definition c13k_oracle (sc : scenario) (o : observation) : option bool :=
                          end) (combine (seq 0 (length states)) states))
   | _, _ => None
   end.
+
+(* ------------------------------------------------------------------ C03: combining operators against Spec3 / MLoc *)
+From RX Require Import Tear MLoc.
+
+Definition all_hot (ps : list pipe) : bool :=
+  forallb (fun ip : nat * pipe => match snd ip with PHot h => Nat.eqb h (fst ip) | _ => false end) (combine (seq 0 (length ps)) ps).
+Definition all_cold (ps : list pipe) : bool :=
+  forallb (fun ip : nat * pipe => match snd ip with PCold h => Nat.eqb h (fst ip) | _ => false end) (combine (seq 0 (length ps)) ps).
+
+(* the sequential interleaving of the sources' events, as (source index, event) *)
+Definition interleaving (sc : scenario) (op : opk) (ps : list pipe) : option (list (nat * ev)) :=
+  match sc_script sc with
+  | DSub 0 _ [] :: rest =>
+      if all_hot ps && forallb (fun ki : skind * option val => match fst ki with KSubject => true | _ => false end) (sc_subjects sc) then
+        if forallb (fun a => match a with DEmit _ _ => true | _ => false end) rest
+        then Some (flat_map (fun a => match a with DEmit h e => if Nat.ltb h (length ps) then [(h, e)] else [] | _ => [] end) rest) else None
+      else if all_cold ps then
+        (* cold sources play their script when they are subscribed: the crate subscribes the trigger of take_until / skip_until /
+           sample first, everything else in source order *)
+        let order := match op with OTakeUntil | OSkipUntil | OSample => [1; 0] | _ => seq 0 (length ps) end in
+        match rest with
+        | [] => Some (flat_map (fun j => map (fun e => (j, e)) (match scripts_of sc j with l :: _ => l | [] => [] end)) order)
+        | _ => None
+        end
+      else None
+  | _ => None
+  end.
+
+Definition wf_scripts (sc : scenario) (n : nat) : bool :=
+  forallb (fun j => match scripts_of sc j with l :: _ => match parse_script l with Some _ => true | None => false end | [] => true end) (seq 0 n).
+
+(* (expected by the definition, what the local semantics of the handler table gives); sources are renamed to serials *)
+Definition c03_expect (op : opk) (n : nat) (l : list (nat * ev)) : option (list ev) * option (list ev) :=
+  let k := n - 1 in
+  let flip2 := map (fun x : nat * ev => (1 - fst x, snd x)) l in          (* stream = source 0 = serial 1, trigger = source 1 = serial 0 *)
+  let rev := map (fun x : nat * ev => (k - fst x, snd x)) l in           (* merge / amb: serial = k - source *)
+  match op with
+  | OMerge => (Some (spec_merge n [] l), Some (mrun OMerge k rev))
+  | OAmb => (Some (spec_amb n None [] l), Some (mrun OAmb k rev))
+  | OZip => (Some (spec_zip n [] (repeat [] n) l), Some (mrun OZip k l))
+  | OTakeUntil => if Nat.eqb n 2 then (Some (spec_take_until [] flip2), Some (mrun OTakeUntil 1 flip2)) else (None, None)
+  | OSkipUntil => if Nat.eqb n 2 then (Some (spec_skip_until false [] flip2), Some (mrun OSkipUntil 1 flip2)) else (None, None)
+  | OSample => if Nat.eqb n 2 then (Some (spec_sample None [] flip2), Some (mrun OSample 1 flip2)) else (None, None)
+  | OCombineLatest f => (Some (spec_combine_latest f n [] (repeat None n) l), None)
+  | OSequenceEqual => if Nat.eqb n 2 then (spec_sequence_equal2 l, None) else (None, None)
+  | _ => (None, None)
+  end.
+
+Definition c03_oracle (sc : scenario) (o : observation) : option bool :=
+  match sc_script sc with
+  | DSub 0 (POp op p0 ps) [] :: _ =>
+      match interleaving sc op (p0 :: ps) with
+      | Some l =>
+          if negb (Nat.eqb (ob_out o) 0) then None
+          else if all_cold (p0 :: ps) && negb (wf_scripts sc (S (length ps))) then None
+          else match fst (c03_expect op (S (length ps)) l) with
+               | Some exp => Some (evs_sim (ulog (uenc (UTop 0)) (ob_log o)) exp)
+               | None => None
+               end
+      | None => None
+      end
+  | _ => None
+  end.
+
+(* tie: the implementation behaves as the local semantics of the handler table *)
+Definition c03_mloc_oracle (sc : scenario) (o : observation) : option bool :=
+  match sc_script sc with
+  | DSub 0 (POp op p0 ps) [] :: _ =>
+      match interleaving sc op (p0 :: ps) with
+      | Some l =>
+          if negb (Nat.eqb (ob_out o) 0) then None
+          else if all_cold (p0 :: ps) && negb (wf_scripts sc (S (length ps))) then None
+          else match snd (c03_expect op (S (length ps)) l) with
+               | Some exp => Some (evs_sim (ulog (uenc (UTop 0)) (ob_log o)) exp)
+               | None => None
+               end
+      | None => None
+      end
+  | _ => None
+  end.
